@@ -407,3 +407,147 @@ class PhysicalProjectionFrame(_Dykstra):
 class EstimatorSequenceNoCarryOver(_Wiring):
     prop = "C13"
     name = "LossMinimizationEstimator: nothing carried between datasets / tomographies"
+
+
+class TensorComposeOperands(E2Contract):
+    """tensor_product / compose_qoperations leave their operands exactly as they were: arrays, flags and the plain lists (outcome shapes, local
+    outcome counts) -- and an operand can be used again afterwards"""
+    name = "tensor_product / compose_qoperations: operand frame"
+    prop = "C13"
+    targets = ("quara.objects.operators:tensor_product", "quara.objects.operators:compose_qoperations", "quara.objects.operators:_tensor_product_Povm_Povm",
+               "quara.objects.operators:_tensor_product_MProcess_MProcess", "quara.objects.operators:_tensor_product_State_State",
+               "quara.objects.operators:_tensor_product_Gate_Gate")
+    frame = True
+    n_conformance = 1
+    max_paths = 16
+
+    def configs(self, tier):
+        return ["state", "povm", "gate", "mprocess"]
+
+    def inputs(self, W, cfg, mk):
+        from .C07_all import esys, single
+        es = [esys(W, k, 2) for k in range(3)]
+        mkobj = dict(state=lambda c, n: obj_state(W, mk, c, n, False), povm=lambda c, n: obj_povm(W, mk, c, 2, n, False),
+                     gate=lambda c, n: obj_gate(W, mk, c, n, False), mprocess=lambda c, n: obj_mprocess(W, mk, c, 2, n, False))[cfg]
+        return dict(a=mkobj(single(W, es[0]), "a"), b=mkobj(single(W, es[1]), "b"), c=mkobj(single(W, es[2]), "c"))
+
+    def run(self, W, cfg, inp):
+        ops = W.mod("quara.objects.operators")
+        a, b, c = inp["a"], inp["b"], inp["c"]
+        first = ops.tensor_product(a, b)
+        again = ops.tensor_product(a, c)          # the left operand is used a second time
+        fresh = ops.tensor_product(a.copy(), c)
+        return dict(again=stacked(W, again), fresh=stacked(W, fresh), n=len(stacked(W, first)))
+
+    def post(self, W, cfg, inp, out):
+        return [eq("second-use-of-an-operand==first-use-of-a-copy", out["again"], out["fresh"], "an operand that was already a factor of one product gives the same product again")]
+
+
+class EstimatorObjectReuse(E2Contract):
+    """an estimator object used for one tomography and then for another (same sizes, other testers) estimates like a fresh one"""
+    name = "linear estimator objects re-used across tomographies"
+    prop = "C13"
+    n_conformance = 0            # (the physical projection is an uninterpreted function in the symbolic world)
+    targets = ("quara.protocol.qtomography.standard.linear_estimator:LinearEstimator.calc_estimate_sequence",
+               "quara.protocol.qtomography.standard.linear_estimator:LinearEstimator.calc_estimate",
+               "quara.protocol.qtomography.standard.projected_linear_estimator:ProjectedLinearEstimator.calc_estimate_sequence")
+    frame = True
+    max_paths = 16
+
+    def __init__(self):
+        from .C10_all import phys_stub
+        self.stubs = {"quara.objects.qoperation:QOperation.calc_proj_physical": phys_stub()}
+
+    def configs(self, tier):
+        return [("linear", "qst"), ("projected", "qst"), ("linear", "povmt")]
+
+    def _qts(self, W, kind):
+        from .C09_all import exact_testers
+        from .C08_all import build_qt
+        c_sys, states, povms = exact_testers(W, "1q", False)
+        a = build_qt(W, kind, dict(states=states, povms=povms), True, 2, "all")
+        b = build_qt(W, kind, dict(states=list(reversed(states)), povms=list(reversed(povms))), True, 2, "all")
+        return a, b
+
+    def inputs(self, W, cfg, mk):
+        which, kind = cfg
+        qa, qb = self._qts(W, kind)
+        f = [mk.array(f"f{j}_", qa.num_outcomes(j)) for j in range(qa.num_schedules)]
+        g = [mk.array(f"g{j}_", qb.num_outcomes(j)) for j in range(qb.num_schedules)]
+        return dict(f=f, g=g)
+
+    def run(self, W, cfg, inp):
+        which, kind = cfg
+        std = "quara.protocol.qtomography.standard."
+        mk_est = (lambda: W.mod(std + "linear_estimator").LinearEstimator()) if which == "linear" else \
+                 (lambda: W.mod(std + "projected_linear_estimator").ProjectedLinearEstimator())
+        qa, qb = self._qts(W, kind)
+        d1 = [(100, x) for x in inp["f"]]
+        d2 = [(100, x) for x in inp["g"]]
+        used = mk_est()
+        used.calc_estimate(qa, d1)
+        got = used.calc_estimate(qb, d2).estimated_var
+        want = mk_est().calc_estimate(qb, d2).estimated_var
+        return dict(got=got, want=want)
+
+    def post(self, W, cfg, inp, out):
+        return [eq("re-used-estimator==fresh-estimator", out["got"], out["want"],
+                   "the estimate depends on the tomography and the data given to THIS call, not on what the estimator object was used for before")]
+
+    def canary(self, W, cfg, inp, out):
+        return [eq("canary", out["got"], 2 * out["want"] + 1, "(false)")]
+
+
+class ExperimentCopyIndependent(E2Contract):
+    """Experiment.copy() shares no list with the original, and the tomography classes' data generation (which works on a copy) leaves the
+    tomography object's own experiment as it was"""
+    name = "Experiment.copy / tomography objects unchanged by data generation"
+    prop = "C13"
+    targets = ("quara.qcircuit.experiment:Experiment.copy", "quara.protocol.qtomography.standard.standard_qmpt:StandardQmpt.generate_prob_dists_sequence",
+               "quara.protocol.qtomography.standard.standard_qst:StandardQst.generate_prob_dists_sequence",
+               "quara.protocol.qtomography.standard.standard_povmt:StandardPovmt.generate_prob_dists_sequence",
+               "quara.protocol.qtomography.standard.standard_qpt:StandardQpt.generate_prob_dists_sequence")
+    frame = False
+    n_conformance = 0
+    max_paths = 16
+
+    def configs(self, tier):
+        return ["qst", "povmt", "qpt", "qmpt"]
+
+    def inputs(self, W, cfg, mk):
+        return dict(probe=mk.real("probe"))
+
+    def run(self, W, cfg, inp):
+        from .C09_all import exact_testers
+        from .C08_all import build_qt, UNKNOWN
+        from .C03_e2 import empty_obj
+        np = W.np
+        c_sys, states, povms = exact_testers(W, "1q", False)
+        qt = build_qt(W, cfg, dict(states=states, povms=povms), True, 2, "all")
+        exp = qt.experiment if hasattr(qt, "experiment") else qt._experiment
+        lists = lambda e: dict(states=list(e.states), povms=list(e.povms), gates=list(e.gates), mprocesses=list(e.mprocesses), schedules=[list(s) for s in e.schedules])
+        before = lists(exp)
+        ident = lambda a, b: all(len(a[k]) == len(b[k]) and all(x is y for x, y in zip(a[k], b[k])) for k in ("states", "povms", "gates", "mprocesses")) and a["schedules"] == b["schedules"]
+        # (1) a copy shares no list
+        cp = exp.copy()
+        shares = any(getattr(cp, k) is getattr(exp, k) for k in ("states", "povms", "gates", "mprocesses", "schedules"))
+        for k in ("states", "povms", "gates", "mprocesses"):
+            lst = getattr(cp, k)
+            if len(lst) > 0:
+                lst[0] = None if lst[0] is not None else 0
+        after_copy_edit = ident(before, lists(exp))
+        # (2) data generation works on a copy
+        kind = UNKNOWN[cfg]
+        tmpl = empty_obj(W, kind, c_sys, 2, True)
+        var = {"state": [0.1, 0.2, 0.3], "povm": [0.7, 0.1, 0.0, 0.2], "gate": [0, 0.5, 0, 0, 0, 0, 0.5, 0, 0.1, 0, 0, 0.6],
+               "mprocess": [0.5, 0, 0, 0.1] + [0, 0.25, 0, 0, 0, 0, 0.25, 0, 0.1, 0, 0, 0.3] + [0, 0.25, 0, 0, 0, 0, 0.25, 0, -0.1, 0, 0, 0.3]}[kind]
+        obj = tmpl.generate_from_var(np.array(var, dtype=np.float64))
+        qt.generate_prob_dists_sequence(obj)
+        after_generation = ident(before, lists(exp))
+        return dict(shares=shares, after_copy_edit=after_copy_edit, after_generation=after_generation)
+
+    def post(self, W, cfg, inp, out):
+        return [eq("copy-shares-no-list", out["shares"], False, "Experiment.copy() has its own states / povms / gates / mprocesses / schedules lists"),
+                eq("editing-the-copy-leaves-the-original", out["after_copy_edit"], True, "assigning into the copy's lists does not change the original experiment"),
+                eq("data-generation-leaves-the-tomography-object", out["after_generation"], True,
+                   "generating the distributions of a candidate object leaves the tomography object's experiment (in particular the empty slot of the unknown) as it was")]
